@@ -237,7 +237,7 @@ PROPS["C14"] = {
     "modules": ["TurnModel.Props.C14", "TurnModel.Props.C14Data", "TurnModel.Props.C14Perm"], "gen": True,
     "harnesses": ["H6", "H13"], "view": ["k6", "kadv", "kwr", "kpw", "kclose"], "outs": None,
     "alarms": ["probe-lost", "close-leaves-allocation", "close-ignored-438", "h6-setup", "harness-died", "application-permission-not-refreshed", "tcp-permission-interval-ignored",
-               "double-close-deallocates-again", "connect-stale-nonce-not-retried", "h13-setup"],
+               "double-close-deallocates-again", "connect-stale-nonce-not-retried", "h13-setup", "refused-peer-written"],
     "rule": "H6 runs the real turn.Client (Allocate, UDPConn with its three periodic timers, WriteTo, ReadFrom, Close) against the real turn.Server on the in-memory network "
             "under virtual time for 5 min - 2 h per history (thorough: up to 6.7 h; directed: library defaults idle 75 min, busy 65 min, worst admissible loss 130 min, Close with a stale "
             "and with a fresh nonce). Inputs per history: server lifetime / permission / channel timeouts and client refresh intervals on both sides of the theorem's Compatible "
